@@ -108,22 +108,40 @@ class AsyncPeer(_Core):
             await self._outq.join()
 
     async def _pump(self, fn, *args):
+        """run one SSLObject operation to completion. Task-safe: the SSLObject call itself runs under a lock, waiting for
+        network data does not hold it, and only one task at a time reads from the transport (so a reader task and a writer
+        task may use the peer concurrently)."""
+        import asyncio
+
+        if getattr(self, "_lock", None) is None:
+            self._lock = asyncio.Lock()
+            self._rlock = asyncio.Lock()
         buf = bytearray(65536)
         while True:
-            try:
-                r = fn(*args)
-            except ssl.SSLWantReadError:
+            async with self._lock:
+                seen_feeds = getattr(self, "_feeds", 0)
+                try:
+                    r = fn(*args)
+                    want = None
+                except ssl.SSLWantReadError:
+                    want = "r"
+                except ssl.SSLWantWriteError:
+                    want = "w"
                 await self._flush()
-                n = await self.t.recv_into(buf)
-                if n == 0:
-                    self.inbio.write_eof()
-                else:
-                    self.inbio.write(bytes(buf[:n]))
-            except ssl.SSLWantWriteError:
-                await self._flush()
-            else:
-                await self._flush()
+            if want is None:
                 return r
+            if want == "r":
+                async with self._rlock:
+                    # somebody else may have fed the BIO while we waited for the read lock: retry the operation first
+                    if getattr(self, "_feeds", 0) != seen_feeds:
+                        continue
+                    n = await self.t.recv_into(buf)
+                    async with self._lock:
+                        self._feeds = getattr(self, "_feeds", 0) + 1
+                        if n == 0:
+                            self.inbio.write_eof()
+                        else:
+                            self.inbio.write(bytes(buf[:n]))
 
     async def handshake(self) -> None:
         await self._pump(self.obj.do_handshake)
